@@ -551,9 +551,74 @@ class Conditional(IfArith):
         return j
 
 
+class Spliced(IfArith):
+    """the same expressions read from a FILE whose #if line is broken by backslash-newline at arbitrary places (translation
+    phase 2 deletes each backslash-newline, so the controlling expression -- and its truth value -- is the unbroken one)"""
+    proved = False
+    role = "bounded check: #if lines spliced with backslash-newline, read through the real file parser (not counted as proved)"
+
+    def bound(self, tier):
+        return (("150" if tier == "quick" else "3000") + " of the seeded expressions, each written to a file with 1-3 backslash-newlines "
+                "inserted anywhere outside character constants (before, after and without white space, inside tokens)")
+
+    def inputs(self, tier, seed):
+        rng = random.Random(seed * 7919 + 99)
+        cs = list(cases(tier, seed))
+        for c in rng.sample(cs, min(150 if tier == "quick" else 3000, len(cs))):
+            ok, q = [], False
+            for i, ch in enumerate(c.text):
+                if ch == "'" and (i == 0 or c.text[i - 1] != "\\" or c.text[i - 2:i] == "\\\\"):
+                    q = not q
+                elif not q and i > 0:
+                    ok.append(i)
+            sp = c.text
+            for pos in sorted(rng.sample(ok, min(rng.randint(1, 3), len(ok))), reverse=True):
+                sp = sp[:pos] + "\\\n" + sp[pos:]
+            yield {"text": c.text, "spliced": sp, "tree": c.tree}
+
+    def nontrivial(self, inp):
+        return "\\\n" in inp["spliced"]
+
+    def check(self, inp):
+        import os
+        import tempfile
+        from codebasin.file_parser import FileParser
+        try:
+            want = ev(inp["tree"], defined=("DEF",))
+        except UB:
+            return None
+        truth = want[1] != 0
+        plat = Platform("p", "/")
+        plat.define("DEF", preprocessor.macro_from_definition_string("DEF=1"))
+        with tempfile.TemporaryDirectory(prefix="cbi_c02_") as d:
+            path = os.path.join(d, "x.c")
+            with open(path, "w") as fh:
+                fh.write("#if " + inp["spliced"] + "\nint x;\n#endif\n")
+            try:
+                tree = FileParser(path).parse_file(summarize_only=False, language="c")
+                node = [n for n in tree.walk() if isinstance(n, preprocessor.IfNode)][0]
+                got = node.evaluate_for_platform(platform=plat, filename=path, state=None)
+            except BaseException as e:      # noqa: BLE001
+                return {"expected": f"{want} (truth {truth})", "observed": f"raised {type(e).__name__}: {e}", "spliced": inp["spliced"],
+                        "klass": "if-arith:spliced:raises:" + classify(inp["tree"], inp["text"])}
+        if bool(got) != truth:
+            return {"expected": f"{want} (truth {truth})", "observed": str(got), "spliced": inp["spliced"],
+                    "klass": "if-arith:spliced:value:" + classify(inp["tree"], inp["text"])}
+        return None
+
+    def encode(self, inp):
+        return {"text": inp["text"], "spliced": inp["spliced"], "tree": inp["tree"]}
+
+    def decode(self, j):
+        def tup(x):
+            return tuple(tup(y) for y in x) if isinstance(x, list) else x
+        return {"text": j["text"], "spliced": j["spliced"], "tree": tup(j["tree"])}
+
+
 TARGETS = {"codebasin.preprocessor:ExpressionEvaluator.expression": Conditional(),
            "codebasin.preprocessor:ExpressionEvaluator.__apply_binary_op": Operators("apply_binary_op"),
            "codebasin.preprocessor:ExpressionEvaluator.__apply_unary_op": Operators("apply_unary_op"),
            "codebasin.preprocessor:ExpressionEvaluator.__wrap": Operators("wrap"),
            "codebasin.preprocessor:ExpressionEvaluator.evaluate": IfArith(),
-           "codebasin.preprocessor:ExpressionEvaluator.term#recorded-findings": BigLiteral()}
+           "codebasin.preprocessor:ExpressionEvaluator.term#recorded-findings": BigLiteral(),
+           "codebasin.preprocessor:ExpressionEvaluator.evaluate#spliced-lines": Spliced()}
